@@ -323,13 +323,16 @@ func (a *Application) executeTranslatedNonStreamingRequest(
 
 	// Parse OpenAI response
 	var openaiResp map[string]interface{}
-	if jerr := json.Unmarshal(recorder.body.Bytes(), &openaiResp); jerr != nil {
-		return fmt.Errorf("failed to parse OpenAI response: %w", jerr)
-	}
+	jerr := json.Unmarshal(recorder.body.Bytes(), &openaiResp)
 
-	// handle backend errors
+	// handle backend errors first, an error answer keeps its status even when
+	// its body is not JSON (e.g. a gateway's HTML page)
 	if recorder.status >= 400 {
 		return a.handleNonStreamingBackendError(w, recorder, openaiResp, pr, trans)
+	}
+
+	if jerr != nil {
+		return fmt.Errorf("failed to parse OpenAI response: %w", jerr)
 	}
 
 	// transform and write successful response
